@@ -852,7 +852,9 @@ class Interp:
                                 target = b.methods[nm]
                                 break
                 if target is not None and (target not in self.fn_stack[-3:] or self.allow_recursion):
-                    params = target.params[1:]
+                    from .frontend import decorators as _decos
+                    is_static = any(d.split(".")[-1] == "staticmethod" for d in _decos(target.node))
+                    params = target.params if is_static else target.params[1:]
                     cenv = {"self": env.get("self", Sym("self"))}
                     for k, v in env.items():
                         if k.startswith("self."):
